@@ -246,6 +246,56 @@ def sec_motion(rec, qm=None, patches=None):
         rec.fact(f"{tag}/copy/equal-content", all(z3.eq(zr(cp.pos[0, a]), p[a].e) for a in range(3)) and cp.features["f"].to_list() == [7], key="C11/motion/copy-content", detail={})
 
 
+def sec_motion_batch(rec, patches=None):
+    """two molecules, per-molecule rotation vectors and shifts ((N, 3) arguments): row i of the result is molecule i moved by ITS vector"""
+    L = _load(patches)
+    MC = L["acryo.molecules.core"]
+    rec.encodes("acryo/molecules/core.py:Molecules.rotate_by_rotvec_internal ((N,3) vectors)", "acryo/molecules/core.py:Molecules.rotate_by_rotvec ((N,3))", "acryo/molecules/core.py:Molecules.translate_internal ((N,3))",
+                "acryo/molecules/core.py:Molecules.translate ((N,3))")
+    qms = [list(rotation.R30[9]), list(rotation.R30[4])]
+    gs = [_qsym("g"), _qsym("k")]
+    hyps = [gs[0][1], gs[1][1]]
+    P = [[real(f"p{i}_{a}") for a in range(3)] for i in range(2)]
+    S = [[real(f"s{i}_{a}") for a in range(3)] for i in range(2)]
+    names = None
+    tag = "motion-batch[N=2]"
+
+    def run():
+        m = MC.Molecules(to_symarray(P), rotation.SymRotation(qms))
+        grot = rotation.SymRotation([gs[0][0], gs[1][0]])
+        v = grot.as_rotvec()
+        return {"rotvec_internal": m.rotate_by_rotvec_internal(v), "rotvec_world": m.rotate_by_rotvec(v), "translate_internal": m.translate_internal(to_symarray(S)), "translate": m.translate(to_symarray(S))}
+
+    from symx.core import Unsupported as _Unsup
+
+    try:
+        paths = explore(run, assumptions=hyps, max_paths=20)
+    except _Unsup as e:
+        # the rotation stand-in cannot interpret what the code built (e.g. a rotation vector mixing components of different molecules): decided on the installed library
+        ok, det = replay_algebra({})
+        if ok:
+            rec.fact(f"{tag}/row-i-moved-by-its-own-vector (engine could not follow: {str(e)[:80]})", False, key="C11/motion/internal-rotation-composes-on-the-right", detail=det, reproduced=True)
+        else:
+            rec.inconclusive(f"{tag}", f"engine cannot follow and the installed library shows no problem: {e}")
+        return
+    for pi, pth in enumerate(paths):
+        if not pth.ok:
+            rec.fact(f"{tag}/runs", False, key="C11/motion/raises", detail={"exc": repr(pth.exc)[:300]}, reproduced=replay_algebra({})[0])
+            continue
+        out = pth.result
+        h = hyps + [pth.condition()]
+        for i in range(2):
+            Rm, Rg = _mat(qms[i]), _mat(gs[i][0])
+            kw = dict(replay=replay_algebra, nonlinear=True, timeout_ms=60000)
+            rec.query(f"{tag}/rotvec_internal/row{i}=Rm_{i}.G_{i}", h, _mat_eq(out["rotvec_internal"].rotator.as_matrix()[i], rotation.A._matmul(Rm, Rg)), key="C11/motion/internal-rotation-composes-on-the-right", **kw)
+            rec.query(f"{tag}/rotvec_world/row{i}=G_{i}.Rm_{i}", h, _mat_eq(out["rotvec_world"].rotator.as_matrix()[i], rotation.A._matmul(Rg, Rm)), key="C11/motion/world-rotation-composes-on-the-left", **kw)
+            for a in range(3):
+                rec.query(f"{tag}/translate_internal/row{i}/pos{a}", h, zr(out["translate_internal"].pos[i, a]) == P[i][a].e + sum((zr(Rm[a, b]) * S[i][b].e for b in range(3)), z3.RealVal(0)),
+                          key="C11/motion/translate_internal", **kw)
+                rec.query(f"{tag}/translate/row{i}/pos{a}", h, zr(out["translate"].pos[i, a]) == P[i][a].e + S[i][a].e, key="C11/motion/translate", **kw)
+                rec.query(f"{tag}/rotvec_internal/row{i}/pos{a}-unchanged", h, zr(out["rotvec_internal"].pos[i, a]) == P[i][a].e, key="C11/motion/internal-rotation-moves-position", **kw)
+
+
 def sec_inplace(rec, patches=None):
     """copy=False updates the object itself and returns it"""
     L = _load(patches)
@@ -692,7 +742,7 @@ def sections(tier):
     R = rotation.R30
     qs = [R[9], R[10], R[1], R[4]] if quick(tier) else R
     S = [("axes", "checks.c11", "sec_axes", {}), ("inplace", "checks.c11", "sec_inplace", {}), ("coords", "checks.c11", "sec_coords", {}),
-         ("representations", "checks.c11", "sec_representations", {}), ("align-rotator", "checks.c11", "sec_align_rotator", {}), ("axes-degenerate", "checks.c11", "sec_axes_degenerate", {}), ("euler-rotate", "checks.c11", "sec_euler_rotate", {})]
+         ("representations", "checks.c11", "sec_representations", {}), ("align-rotator", "checks.c11", "sec_align_rotator", {}), ("axes-degenerate", "checks.c11", "sec_axes_degenerate", {}), ("euler-rotate", "checks.c11", "sec_euler_rotate", {}), ("motion-batch", "checks.c11", "sec_motion_batch", {})]
     for i, q in enumerate(qs):
         S.append((f"motion-{i}", "checks.c11", "sec_motion", {"qm": q}))
     return S
